@@ -1,17 +1,28 @@
 //! C04 — a compiled function is only obtainable under its true Rust signature.
 //!
-//! One generated package holds, for every type S of the boundary grammar,
-//! `fn p_S(x: S) {}` and `fn r_S() -> S { .. }`, filtermaps for every
+//! One generated package (`genr.rs`) holds, for every type S of the script
+//! grammar, `fn p_S(x: S) {}` and `fn r_S() -> S { .. }`, filtermaps for every
 //! (accept type, reject type, sides used) combination, arity functions, tests,
-//! script-declared types and a submodule. Every *target* (a name plus the
-//! signature the generator knows it has, or "nothing") is requested through
-//! the public `Package::get_function::<F>` under every Rust function type F of
-//! the probe table (`fn(R)`, `fn() -> R` for every R of the grammar, the 36
-//! arity signatures, types unknown to the runtime).
+//! script-declared types, declarations shadowing built-in type names and a
+//! submodule. Every *target* (a name plus the signature the generator knows it
+//! has, or "nothing") is requested through the public
+//! `Package::get_function::<F>` under every Rust function type F of the probe
+//! table: `fn(R)` and `fn() -> R` for every R of the probe grammar, the 36
+//! arity signatures, types unknown to the runtime. The keys of the compiled
+//! module that are not script functions (generated clone/drop/eq helpers) are
+//! read off the public error text and requested as well.
 //!
-//! Oracle: structural equality of the generator's descriptors. `Ok` iff the
-//! name designates a function and parameter lists and return types are equal;
-//! never a panic. Handles obtained on the diagonal are called once.
+//! Oracle: structural equality of descriptors built by the generator (script
+//! side, `c04p::ty`) and by the `Desc` trait (Rust side, `c04p::probe`). `Ok`
+//! iff the name designates a function and parameter lists and return types are
+//! equal; never a panic. Handles obtained on the diagonal are called once.
+//!
+//! Layout: `p/` descriptors + probe machinery, `t1/ t2/ t3/` the probe tables
+//! (library crates so that rustc instantiates `get_function::<F>` for the
+//! ~500 F in parallel), `src/` generator and check.
+//!
+//! Units: `PROBES_PER_UNIT` requested Rust types per unit, each looping over all
+//! targets; case mark = (probe in unit, target, get | call).
 
 use roto::{FileSpec, FileTree, NoCtx, Package, SourceFile};
 use vcore::util::{catch, fnv_str, mix};
@@ -40,8 +51,9 @@ fn table(tier: Tier) -> Table {
     tab2::aliens(&mut v);
     tab2::arity(&mut v);
     tab2::mixed(&mut v);
+    tab3::unary(&mut v);
     if tier == Tier::Thorough {
-        tab3::all(&mut v);
+        tab3::binary(&mut v);
     }
     // the arity signatures fn(), fn(u8), fn(u32) are also fn(R) / fn() -> R probes
     let mut seen = std::collections::HashSet::new();
@@ -50,7 +62,8 @@ fn table(tier: Tier) -> Table {
 }
 
 fn compile(p: &Pkg) -> Result<Package<NoCtx>, String> {
-    let rt = host::runtime();
+    // the runtime outlives the package (handle lifetimes are C11's business)
+    let rt: &'static roto::Runtime<NoCtx> = Box::leak(Box::new(host::runtime()));
     let file = |name: &str, module: &str, contents: &str| SourceFile {
         name: name.into(),
         module_name: module.into(),
@@ -62,7 +75,7 @@ fn compile(p: &Pkg) -> Result<Package<NoCtx>, String> {
         file("pkg.roto", "pkg", &p.root),
         vec![FileSpec::File(file("sub.roto", "sub", &p.sub))],
     );
-    match catch(|| FileTree::file_spec(spec).compile(&rt)) {
+    match catch(|| FileTree::file_spec(spec).compile(rt)) {
         Ok(Ok(p)) => Ok(p),
         Ok(Err(report)) => {
             let mut s = String::new();
@@ -244,9 +257,16 @@ impl Check for C04 {
                 if !do_get && !call_only {
                     continue;
                 }
-                let got = catch(|| probe.get(&mut pkg, &t.name));
+                // Ok(Ok(Some(call))) callable handle, Ok(Ok(None)) handle of a
+                // request-only probe, Ok(Err(msg)) refused, Err(panic)
+                let got: Result<Result<Option<Box<dyn FnOnce()>>, String>, String> =
+                    catch(|| probe.get(&mut pkg, &t.name)).map(|g| match g {
+                        Got::Handle(c) => Ok(Some(c)),
+                        Got::HandleOnly => Ok(None),
+                        Got::Refused(m) => Err(m),
+                    });
                 if call_only {
-                    if let Ok(Got::Handle(call)) = got {
+                    if let Ok(Ok(Some(call))) = got {
                         if cx.case(sub_call) {
                             run_call(cx, probe, t, sub_call, call);
                         }
@@ -275,7 +295,7 @@ impl Check for C04 {
                             json!(format!("panic: {panic}")),
                         );
                     }
-                    Ok(Got::Refused(msg)) => {
+                    Ok(Err(msg)) => {
                         cx.outcome(fnv_str(err_category(&msg)));
                         if t.expect == Expect::Unspecified {
                             cx.unspecified(1);
@@ -292,13 +312,19 @@ impl Check for C04 {
                             );
                         }
                     }
-                    Ok(Got::Handle(call)) => {
+                    Ok(Ok(call)) => {
                         cx.outcome(fnv_str("Ok"));
                         if t.expect == Expect::Unspecified {
                             // which type it is is open, but it can be one type only (see finish)
                             cx.unspecified(1);
                             cx.set(&format!("ok-under/{}", t.name), pi as u64);
                             cx.note(format!("{} ({}) is retrievable as {}", t.name, t.src, sig_rust(&pp, &pr)));
+                            // whatever type the implementation chose, the handle must work
+                            if let Some(call) = call {
+                                if cx.case(sub_call) {
+                                    run_call(cx, probe, t, sub_call, call);
+                                }
+                            }
                             continue;
                         }
                         cx.validated(1);
@@ -317,8 +343,10 @@ impl Check for C04 {
                             samples += 1;
                             cx.sample(case_json(probe, t, "get"));
                         }
-                        if cx.case(sub_call) {
-                            run_call(cx, probe, t, sub_call, call);
+                        if let Some(call) = call {
+                            if cx.case(sub_call) {
+                                run_call(cx, probe, t, sub_call, call);
+                            }
                         }
                     }
                 }
@@ -387,7 +415,7 @@ impl Check for C04 {
         let pg = ty::probe_grammar(cfg.tier);
         let p = genr::package(cfg.tier);
         Meta {
-            rule: "every target (a name + the signature the generator knows it has, or 'nothing') x every Rust function type of the probe table, requested through Package::get_function; Ok iff parameter lists and return types are structurally equal descriptors; never a panic; handles obtained on the depth<=1 diagonal are called once. Script side: p_S/r_S for every S of the script grammar (quick: 132 G1 types + all 456 depth-2 nestings over the 6-leaf set; thorough: G1 + every type of depth <= 2 over the 6-leaf set with at most one non-leaf argument per binary constructor), 57 filtermaps, 38 arity functions, tests, script-declared and shadowing types, a submodule. Rust side: fn(R) and fn() -> R for every R of the probe grammar (quick: G1; thorough: G1 + 96 depth-2 types), 36 arity signatures, types unknown to the runtime. Names derived from module keys that are not script functions (generated helpers) are requested under the flat signatures only. A pair is non-trivial when the name designates a script function and the requested type has the same number of parameters (at least one type comparison decides the outcome)".into(),
+            rule: "every target (a name + the signature the generator knows it has, or 'nothing') x every Rust function type of the probe table, requested through Package::get_function; Ok iff parameter lists and return types are structurally equal descriptors; never a panic; handles obtained on the depth<=1 diagonal are called once. Script side: p_S/r_S for every S of the script grammar (quick: 132 G1 types + all 456 depth-2 nestings over the 6-leaf set; thorough: G1 + every type of depth <= 2 over the 6-leaf set with at most one non-leaf argument per binary constructor), 57 filtermaps, 38 arity functions, tests, script-declared and shadowing types, a submodule. Rust side: fn(R) and fn() -> R for every R of the probe grammar (quick: G1 + the 24 types U<W<L>>, U, W in {Option, List}; thorough: G1 + 96 depth-2 types), 36 arity signatures, types unknown to the runtime. Names derived from module keys that are not script functions (generated helpers) are requested under the flat signatures only. A pair is non-trivial when the name designates a script function and the requested type has the same number of parameters (at least one type comparison decides the outcome)".into(),
             assumptions: vec![
                 "the Rust-side descriptor of a type is derived by the harness's own Desc trait, the script-side descriptor by the generator; neither reads roto's TypeRegistry".into(),
                 "Rust types that implement roto::Value but are not nameable outside the crate (StringBytes, StringChars, StringLines, DynVal, VTable, ErasedList) cannot be requested through the public API and are not enumerated".into(),
